@@ -60,7 +60,12 @@ def schema(T, with_cons=True):
         raise ValueError(k)
     if with_cons and T.get('cons') is not None:
         from . import cons as consmod
-        obj = obj.subtype(subtypeSpec=constraint.ConstraintsIntersection(consmod.build(T['cons'], k)))
+        if T.get('cons_steps'):
+            # a derivation chain whose links add one constraint object each (T['cons'] is their conjunction)
+            for step in T['cons_steps']:
+                obj = obj.subtype(subtypeSpec=consmod.build(step, k))
+        else:
+            obj = obj.subtype(subtypeSpec=constraint.ConstraintsIntersection(consmod.build(T['cons'], k)))
     return apply_tags(obj, T.get('tags', ()))
 
 
